@@ -77,6 +77,11 @@ type ReplayFile struct {
 	// BySeed: the file replays by regenerating the run from its seed (property, tier, seed) and executing it under
 	// the strategy the seed selects, instead of following Choices. Used when a recorded schedule cannot be followed.
 	BySeed bool `json:"by_seed,omitempty"`
+	// Prelude lists run indices (of the same check, same base seed) that the replaying child executes, in this
+	// order and in the same process, before the run itself: for violations that depend on state a previous Mine /
+	// derivation / hash call left behind in the package under test (caches, pools, globals).
+	Prelude  []int  `json:"prelude,omitempty"`
+	BaseSeed uint64 `json:"base_seed,omitempty"`
 	// ReplayNote is set when the violation did not reproduce in every confirmation attempt.
 	ReplayNote string `json:"replay_note,omitempty"`
 }
